@@ -9,6 +9,7 @@ import FeatModel.Lemmas.C11Sound2
 import FeatModel.Lemmas.C11Strict
 import FeatModel.Lemmas.C11Charts
 import FeatModel.Lemmas.C11XmlGrammar
+import FeatModel.Lemmas.C11ChartCtor
 /-!
 # C11 — mesh/config files round-trip; malformed input is rejected without crashing
 
@@ -257,6 +258,35 @@ theorem C11.circle_bad_midpoint_rejected (line : Nat) (m : Markup) (ms : Str)
 theorem C11.empty_chart_rejected (st : St) (line : Nat) (name : Str) (rest : List Frame)
     (hs : st.stack = Frame.chart name none :: rest) : closeTop st line = gErr line :=
   closeTop_empty_chart st line name rest hs
+
+/-- The chart parsers never reach the always-active assertions of the chart constructors (`radius > 0`): whatever
+    `CircleChartParser::create` accepts satisfies the constructor's precondition … -/
+theorem C11.circle_accept_implies_ctor_precondition (line : Nat) (m : Markup) (c : Chart) (deg : Bool)
+    (h : circleCreate line m = .ok (c, deg)) : c.ctorOk :=
+  circleCreate_ctorOk h
+
+theorem C11.sphere_accept_implies_ctor_precondition (line : Nat) (m : Markup) (c : Chart)
+    (h : sphereCreate line m = .ok c) : c.ctorOk :=
+  sphereCreate_ctorOk h
+
+/-- … and every radius outside it (negative of ANY magnitude, zero, tiny) is rejected with the documented
+    GrammarError: the parser's test is `radius < CoordType(1E-5)` on the signed value, not on its magnitude -/
+theorem C11.circle_nonpositive_radius_rejected (line : Nat) (m : Markup) (rs ms : Str) (r : Rat)
+    (h1 : attrOf m "radius" = some rs) (h2 : attrOf m "midpoint" = some ms) (h3 : readQ rs = some r)
+    (h4 : r ≤ 0) : circleCreate line m = gErr line :=
+  circleCreate_small_radius_rejected line m rs ms r h1 h2 h3 (nonpositive_radius_below_min r h4)
+
+theorem C11.sphere_nonpositive_radius_rejected (line : Nat) (m : Markup) (rs ms : Str) (r : Rat)
+    (h1 : attrOf m "radius" = some rs) (h2 : attrOf m "midpoint" = some ms) (h3 : readQ rs = some r)
+    (h4 : r ≤ 0) : sphereCreate line m = gErr line :=
+  sphereCreate_small_radius_rejected line m rs ms r h1 h2 h3 (nonpositive_radius_below_min r h4)
+
+/-- exact acceptance criterion of the radius: accepted iff not below the threshold (which is positive) -/
+theorem C11.circle_radius_accepted_iff (line : Nat) (m : Markup) (c : Chart) (deg : Bool)
+    (h : circleCreate line m = .ok (c, deg)) :
+    ∃ rs r, attrOf m "radius" = some rs ∧ readQ rs = some r ∧ ¬ r < radiusMin ∧ c.radius = r ∧ 0 < radiusMin :=
+  let ⟨rs, r, a, b, c', d⟩ := circleCreate_radius h
+  ⟨rs, r, a, b, c', d, radiusMin_pos⟩
 
 /-! ## XML scanner: soundness and completeness with respect to the line grammar -/
 
